@@ -76,6 +76,29 @@ def run(tier, seed):
         else:
             t.fail('FormulaGrader verdict', key, "student %r samples %r tolerance %r failable_evals %d: %d failing samples, grade %r expected %r" % (
                 text, used, tol, fe, failures, r['grade_decimal'], want))
+    # author and student are evaluated on the SAME sample, also when only a sampled *function* varies
+    class ReplayFn(samp.FunctionSamplingSet):
+        schema_config = samp.Schema({samp.Required('slopes'): list})
+
+        def __init__(self, config=None, **kwargs):
+            super(ReplayFn, self).__init__(config, **kwargs)
+            self.k = 0
+
+        def gen_sample(self):
+            k = self.config['slopes'][self.k % len(self.config['slopes'])]
+            self.k += 1
+            return lambda x, k=k: k * x
+
+    for n in (2, 3, 5):
+        for fe in (0, 1):
+            for stu, want in (('f(2) + 1', True), ('1 + f(2)', True), ('f(1)*2 + 1', True), ('3', False), ('f(2)', False)):
+                g = fgm.FormulaGrader(answers='f(2) + 1', user_functions={'f': ReplayFn(slopes=[1.0, 2.0, 3.0, 4.0, 5.0])}, samples=n, failable_evals=fe)
+                got = g(None, stu)['ok']
+                key = ('sampled function only', n, fe, stu)
+                if got is want:
+                    t.ok('same sample for author and student', key, sample={'answer': 'f(2) + 1', 'student': stu, 'samples': n, 'ok': got})
+                else:
+                    t.fail('same sample for author and student', key, "answer 'f(2) + 1' student %r samples=%d failable_evals=%d (f sampled as x -> k*x, k=1..5): ok=%r expected %r" % (stu, n, fe, got, want))
     # percentage relative to the author's value; infinities
     ng = fgm.NumericalGrader
     for ans, stu, tol, want in (('10', '10.9', '10%', True), ('10', '11.04', '10%', False), ('10', '9.04', '10%', True), ('10', '8.9', '10%', False),
